@@ -89,7 +89,32 @@ fn take_hostlog() -> Vec<(&'static str, u64)> {
     HOSTLOG.with(|l| std::mem::take(&mut *l.borrow_mut()))
 }
 
+/// Two closures of the *same Rust type* with different captured state.
+fn same_type_closure(t: T24) -> impl Fn() -> u64 + Send + Sync + 'static {
+    move || {
+        let c: &T24 = &t;
+        let p = match c.checked_payload() {
+            Ok(p) => p,
+            Err(e) => {
+                viol::record("stale-read", format!("state captured by a registered closure is not alive: {e}"));
+                0
+            }
+        };
+        host("cap", p);
+        p
+    }
+}
+
 fn mk_runtime(rid: u64) -> Runtime<NoCtx> {
+    let mut rt = mk_runtime_base(rid);
+    for (name, payload) in [("cap2", 600 + rid), ("cap3", 700 + rid)] {
+        let f = roto::Function::new(name, "closure registered with Runtime::add", vec![], same_type_closure(T24::new(payload)), roto::location!()).expect("function");
+        rt.add(f).expect("add function");
+    }
+    rt
+}
+
+fn mk_runtime_base(rid: u64) -> Runtime<NoCtx> {
     let cap = T24::new(100 + rid);
     let k = Val(T24::new(200 + rid));
     let ko: Option<Val<T24>> = Some(Val(T24::new(300 + rid)));
@@ -200,7 +225,20 @@ fn ks_{k}() -> String {{
         None => "none",
     }}
 }}
-fn f(x: u64) -> u64 {{ {b} log(x); let part_{k} = helper_{k}(x); let rc = {rc}; part_{k} + val({c}) + val({d}) + val(K) + cap() + {l}.len() + {lt}.len() + opt_{k}() + rc.n + val(rc.t) + ko_{k}() + KL.len() + ex_{k}() + many_{k}() }}
+fn f(x: u64) -> u64 {{
+    {b}
+    log(x);
+    let part_{k} = helper_{k}(x);
+    let rc = {rc};
+    // (short sums per statement: roto's front end slows down sharply with the length of a `+` chain)
+    let acc = part_{k} + val({c}) + val({d});
+    acc = acc + val(K) + cap() + {l}.len();
+    acc = acc + {lt}.len() + opt_{k}() + rc.n;
+    acc = acc + val(rc.t) + ko_{k}() + KL.len();
+    acc = acc + ex_{k}() + many_{k}();
+    acc + cap2() + cap3()
+}}
+fn lit() -> String {{ "literal-{k}-of-m{m}" }}
 fn s(a: String) -> String {{ let rc = {rc}; a + {s} + rc.s + ks_{k}() }}
 test keeps_{k} {{
     if val({c}) == {c0} && cap() > 0 {{ accept }} else {{ reject }}
@@ -227,6 +265,8 @@ enum Hf {
     C(Sendable<Box<dyn Fn(u64) -> u64>>),
     /// a test case obtained from `Package::get_tests`
     Test(Sendable<Box<dyn Fn() -> Result<(), ()>>>),
+    /// `fn lit() -> String` returning a string literal unchanged
+    L(Sendable<TypedFunc<NoCtx, fn() -> RotoString>>),
     F(Sendable<TypedFunc<NoCtx, fn(u64) -> u64>>),
     S(Sendable<TypedFunc<NoCtx, fn(RotoString) -> RotoString>>),
     T(Sendable<TypedFunc<NoCtx, fn(Val<T24>) -> Val<T24>>>),
@@ -338,7 +378,7 @@ fn check_not_before(site: &str) {
     }
     for (&rid, _) in &model.rt_clones {
         if model.rt_alive(rid) {
-            for (what, p) in [("registered constant K", 200 + rid), ("state captured by the registered closure", 100 + rid), ("the tracked value inside the registered constant KO: Option<..>", 300 + rid)] {
+            for (what, p) in [("registered constant K", 200 + rid), ("state captured by the registered closure", 100 + rid), ("state captured by the registered closure cap2", 600 + rid), ("state captured by the registered closure cap3", 700 + rid), ("the tracked value inside the registered constant KO: Option<..>", 300 + rid)] {
                 if live.get(&p).copied().unwrap_or(0) < 1 {
                     viol::record(
                         "released-too-early",
@@ -578,6 +618,7 @@ fn exec_inner(op: &LifeOp) -> bool {
             let f = match which {
                 0 => e.pkg.get_function::<fn(u64) -> u64>("f").map(|f| Hf::F(Sendable(f))).map_err(|x| x.to_string()),
                 1 => e.pkg.get_function::<fn(RotoString) -> RotoString>("s").map(|f| Hf::S(Sendable(f))).map_err(|x| x.to_string()),
+                4 => e.pkg.get_function::<fn() -> RotoString>("lit").map(|f| Hf::L(Sendable(f))).map_err(|x| x.to_string()),
                 3 => {
                     let mut tests: Vec<_> = e.pkg.get_tests().collect();
                     if tests.len() == 1 {
@@ -612,6 +653,7 @@ fn exec_inner(op: &LifeOp) -> bool {
             let Some(e) = with_pools(|p| p.hds[*src].take()) else { return false };
             let f2 = match &e.f {
                 Hf::C(_) | Hf::Test(_) => None,
+                Hf::L(f) => Some(Hf::L(f.clone())),
                 Hf::F(f) => Some(Hf::F(f.clone())),
                 Hf::S(f) => Some(Hf::S(f.clone())),
                 Hf::T(f) => Some(Hf::T(f.clone())),
@@ -657,9 +699,11 @@ fn exec_inner(op: &LifeOp) -> bool {
                     };
                     let log = take_hostlog();
                     let many: u64 = (0..many_constants(k)).filter(|i| i % 10 != 9).map(|i| i + k).sum();
-                    let want = x.wrapping_mul(k) + 2 * c + (200 + rid) + (100 + rid) + 2 + 1 + (c + 2) + k + (c + 3) + (300 + rid) + 2 + extras.iter().sum::<u64>() + many;
+                    let want = x.wrapping_mul(k) + 2 * c + (200 + rid) + (100 + rid) + 2 + 1 + (c + 2) + k + (c + 3) + (300 + rid) + 2 + extras.iter().sum::<u64>() + many + (600 + rid) + (700 + rid);
                     let mut want_log: Vec<(&str, u64)> = vec![("log", *x), ("val", c), ("val", c), ("val", 200 + rid), ("cap", 100 + rid), ("val", c + 2), ("val", c + 3), ("val", 300 + rid)];
                     want_log.extend(extras.iter().map(|p| ("val", *p)));
+                    want_log.push(("cap", 600 + rid));
+                    want_log.push(("cap", 700 + rid));
                     if got != want || log != want_log {
                         viol::record(
                             "wrong-result",
@@ -676,6 +720,22 @@ fn exec_inner(op: &LifeOp) -> bool {
                         let s: &str = got.as_ref();
                         if s != want || !log.is_empty() {
                             viol::record("wrong-result", format!("s(\"ab\") of module m{} (version {k}) returned {s:?} with host calls {log:?}", e.m));
+                        }
+                    }
+                    let _mg = alloc::ModeGuard::new(alloc::MODE_PLAIN);
+                    let mut g = KEPT_STR.lock().unwrap();
+                    if g.len() < 16 {
+                        g.push((Sendable(got), want));
+                    }
+                }
+                Hf::L(f) => {
+                    let got = f.call();
+                    let log = take_hostlog();
+                    let want = format!("literal-{k}-of-m{}", e.m);
+                    {
+                        let s: &str = got.as_ref();
+                        if s != want || !log.is_empty() {
+                            viol::record("wrong-result", format!("lit() of module m{} (version {k}) returned {s:?} with host calls {log:?}", e.m));
                         }
                     }
                     let _mg = alloc::ModeGuard::new(alloc::MODE_PLAIN);
@@ -823,7 +883,7 @@ fn gen_op(r: &mut Rng, s: &mut Sym, weights: &[u32; 12]) -> Option<LifeOp> {
                 let p = *r.pick(&pks);
                 let h = empty_or_any(r, &s.hds);
                 s.hds[h] = s.pks[p];
-                return Some(LifeOp::GetHandle { p, h, which: r.weighted(&[52, 18, 18, 12]) as u8 });
+                return Some(LifeOp::GetHandle { p, h, which: r.weighted(&[46, 16, 16, 10, 12]) as u8 });
             }
             6 if !hds.is_empty() => {
                 let src = *r.pick(&hds);
